@@ -1,5 +1,6 @@
 import CoreBGP.Model.Timed
 import CoreBGP.Spec.Wire
+import CoreBGP.Lemmas.Session
 /-!
 # C06 — hold-time negotiation, hold-timer expiry and keepalive cadence
 
@@ -17,7 +18,15 @@ open CoreBGP CoreBGP.Model
 theorem negotiated (s : TSess) (remoteHold : Nat) (s' : TSess) (o : TOut)
     (h : tstep s (.openAccepted remoteHold) = some (s', o)) :
     s'.hold = Spec.negotiatedHold s.localHold remoteHold := by
-  sorry
+  rw [Lemmas.tstep_openAccepted] at h
+  split at h
+  · cases h
+  · split at h
+    · cases h; rfl
+    · cases h
+      rename_i hz
+      simp only [Spec.negotiatedHold]
+      omega
 
 /-- the invariant: beyond OpenSent, with a non-zero hold time, the hold deadline is exactly
 (time of the last KEEPALIVE / UPDATE / OPEN received) + hold, and the keepalive deadline is at most
@@ -28,10 +37,73 @@ def Inv (s : TSess) : Prop :=
     (s.hold = 0 → s.holdDl = none ∧ s.kaDl = none)
 
 theorem inv_step (s s' : TSess) (e : TEv) (o : TOut) (hi : Inv s) (h : tstep s e = some (s', o)) : Inv s' := by
-  sorry
+  cases e with
+  | tick dt =>
+    simp only [tstep] at h
+    cases h
+    exact hi
+  | openAccepted rh =>
+    rw [Lemmas.tstep_openAccepted] at h
+    split at h
+    · cases h
+    · split at h
+      · cases h
+        intro _
+        simp_all
+      · cases h
+        intro _
+        simp_all
+  | keepalive =>
+    obtain ⟨ph, now, lh, hold, hdl, kdl, lr, ls⟩ := s
+    simp only [tstep] at h
+    split at h
+    · cases h
+      simp_all [Inv]
+    · cases h
+      simp_all [Inv]
+    · cases h
+  | update =>
+    obtain ⟨ph, now, lh, hold, hdl, kdl, lr, ls⟩ := s
+    simp only [tstep] at h
+    split at h
+    · cases h
+    · cases h
+      simp_all [Inv]
+  | holdFire =>
+    simp only [tstep] at h
+    split at h
+    · cases h
+    · cases h
+      simp [Inv]
+  | kaFire =>
+    obtain ⟨ph, now, lh, hold, hdl, kdl, lr, ls⟩ := s
+    simp only [tstep] at h
+    split at h
+    · cases h
+    · cases h
+      rename_i hc
+      simp [Inv, fired] at hc ⊢
+      simp [Inv] at hi
+      intro hp
+      have := hi hp
+      cases kdl with
+      | none => simp at hc
+      | some d =>
+        by_cases hz : hold = 0
+        · simp_all
+        · simp_all
+  | writeUpdate =>
+    obtain ⟨ph, now, lh, hold, hdl, kdl, lr, ls⟩ := s
+    simp only [tstep] at h
+    split at h
+    · cases h
+    · cases h
+      simp_all [Inv]
 
 theorem inv_reachable (localHold t0 : Nat) (s : TSess) (h : TReach localHold t0 s) : Inv s := by
-  sorry
+  induction h with
+  | init => intro hp; simp [tInit] at hp
+  | step _ hs ih => exact inv_step _ _ _ _ ih hs
 
 /-- no early expiry: in OpenConfirm / Established with a non-zero hold time, a hold-timer expiry
 step exists only once `hold` seconds have passed since the last KEEPALIVE or UPDATE (or the OPEN)
@@ -39,7 +111,17 @@ was received -/
 theorem no_early_expiry (localHold t0 : Nat) (s s' : TSess) (o : TOut) (hr : TReach localHold t0 s)
     (hp : s.phase = .openConfirm ∨ s.phase = .established)
     (h : tstep s .holdFire = some (s', o)) : s.hold ≠ 0 ∧ s.now ≥ s.lastRecv + s.hold * secNs := by
-  sorry
+  have hi := inv_reachable _ _ _ hr hp
+  simp only [tstep] at h
+  split at h
+  · cases h
+  · rename_i hc
+    by_cases hz : s.hold = 0
+    · have := (hi.2 hz).1
+      simp [this, fired] at hc
+    · have := (hi.1 hz).1
+      simp [this, fired] at hc
+      exact ⟨hz, hc.2⟩
 
 /-- the expiry step sends Hold Timer Expired and closes, in both states, and is enabled from the
 deadline on -/
@@ -47,14 +129,29 @@ theorem expiry_action (localHold t0 : Nat) (s : TSess) (hr : TReach localHold t0
     (hp : s.phase = .openConfirm ∨ s.phase = .established) (hh : s.hold ≠ 0)
     (ht : s.now ≥ s.lastRecv + s.hold * secNs) :
     ∃ s', tstep s .holdFire = some (s', .expired) ∧ s'.phase = .closed := by
-  sorry
+  have hi := inv_reachable _ _ _ hr hp
+  have hd := (hi.1 hh).1
+  have hc : ¬ (s.phase = .closed) := by rcases hp with hp | hp <;> simp [hp]
+  have hf : (s.phase = .closed || !fired s.holdDl s.now) = false := by
+    simp [hd, fired, hc]
+    exact ht
+  refine ⟨{ s with phase := .closed, holdDl := none, kaDl := none }, ?_, rfl⟩
+  simp only [tstep, hf]
+  rfl
 
 /-- the keepalive event is enabled from (last send + ⌊hold/3⌋) on, sends a KEEPALIVE and re-arms -/
 theorem keepalive_due (localHold t0 : Nat) (s : TSess) (hr : TReach localHold t0 s)
     (hp : s.phase = .openConfirm ∨ s.phase = .established) (hh : s.hold ≠ 0)
     (ht : s.now ≥ s.lastSent + kaInterval s.hold) :
     ∃ s', tstep s .kaFire = some (s', .sentKeepalive) ∧ s'.lastSent = s.now ∧ s'.kaDl = some (s.now + kaInterval s.hold) := by
-  sorry
+  have hi := inv_reachable _ _ _ hr hp
+  have hd := (hi.1 hh).2
+  have hf : (!(s.phase = .openConfirm || s.phase = .established) || !fired s.kaDl s.now) = false := by
+    simp [hd, fired]
+    exact ⟨fun hn => hp.resolve_left hn, ht⟩
+  refine ⟨{ s with kaDl := some (s.now + kaInterval s.hold), lastSent := s.now }, ?_, rfl, rfl⟩
+  simp only [tstep, hf]
+  rfl
 
 /-- hold time zero: the session establishes on the remote's KEEPALIVE, and in no reachable state
 beyond OpenSent is a hold-timer expiry or a periodic keepalive step enabled — it never expires for
@@ -63,12 +160,18 @@ theorem zero_hold (localHold t0 : Nat) (s : TSess) (hr : TReach localHold t0 s)
     (hp : s.phase = .openConfirm ∨ s.phase = .established) (hz : s.hold = 0) :
     tstep s .holdFire = none ∧ tstep s .kaFire = none ∧
     (s.phase = .openConfirm → ∃ s', tstep s .keepalive = some (s', .none_) ∧ s'.phase = .established) := by
-  sorry
+  have hi := inv_reachable _ _ _ hr hp
+  obtain ⟨h1, h2⟩ := hi.2 hz
+  refine ⟨?_, ?_, ?_⟩
+  · simp [tstep, h1, fired]
+  · simp [tstep, h2, fired]
+  · intro hc
+    simp [tstep, hc]
 
 /-- in OpenSent the 4-minute timer applies (`Gen.longHoldTime`) -/
 theorem open_sent_timer (localHold t0 : Nat) :
     (tInit localHold t0).holdDl = some (t0 + 240 * secNs) := by
-  sorry
+  simp [tInit, Gen.longHoldTime, secNs]
 
 -- non-vacuity: a reachable Established state with hold 3 whose expiry is enabled exactly at +3 s
 example : (trun (tInit 3 0) [.openAccepted 9, .keepalive, .tick (3 * secNs), .holdFire]).2.getLast? = some (3 * secNs, .expired) := by decide
